@@ -556,8 +556,14 @@ func (r *rateLimiter) cleanupTimeoutClient() {
 			reason := fmt.Sprintf("instance %s last heartbeat since %v", instance, lastHeartbeat.Format(time.RFC3339Nano))
 			go func() {
 				for _, limitStore := range r.limitStoreMap {
-					conditions := limitStore.List(labels.Set{RateLimitConditionInstanceLabel: instance}.AsSelector())
+					// select by spec.instance instead of the instance label: an instance name
+					// that is not a valid label value (e.g. "ip:port") makes the label selector
+					// match everything, and the label is only set from the second report on
+					conditions := limitStore.List(labels.Everything())
 					for _, condition := range conditions {
+						if condition.Spec.Instance != instance {
+							continue
+						}
 						r.deleteCondition(limitStore, condition, reason)
 					}
 					r.deleteGlobalFlowControl(limitStore, instance, reason)
